@@ -118,6 +118,18 @@ def task_params(p, tier, seed):
             part.record(Q("unsat" if ok else "sat", None, 0.0, ""), f"{key_base}: set_params({fld}=v) changes exactly that configuration field")
             if not ok:
                 viol(f"set-{fld}", f"set_params({fld}=...) : field set={ok_field}, other fields unchanged={ok_others}, top-level unchanged={ok_top}")
+        # special numeric values of the configuration fields survive set_params unchanged (type and value)
+        import numpy as _np
+
+        for fld, specials in (("innovation_filtering", [0.0, 0, -1.5, 1e-12, 1e9, None, _np.float64(0.0), _np.float64(2.5)]), ("max_dt_sec", [1e-9, 0.5, 1e3, _np.float64(0.25)])):
+            for val in specials:
+                ad6 = sym_adapter(p, env, pn, sn, k=SymReal(z3.Real("k0")))
+                ad6.set_params(**{fld: val})
+                got = getattr(ad6.get_params()["config"], fld)
+                ok = (got is None) == (val is None) and (val is None or (not isinstance(got, SymReal) and float(got) == float(val)))
+                part.record(Q("unsat" if ok else "sat", None, 0.0, ""), f"{key_base}: set_params({fld}={val!r}) stores exactly that value")
+                if not ok:
+                    viol(f"set-{fld}-special", f"set_params({fld}={val!r}) stored {got!r}")
         # several configuration fields in ONE call: every one of them lands (this is how a grid search drives it)
         import itertools as _it
 
@@ -140,8 +152,20 @@ def task_params(p, tier, seed):
         part.record(Q("unsat" if ok else "sat", None, 0.0, ""), f"{key_base}: set_params(process_noise=..., max_dt_sec=...) in one call sets both")
         if not ok:
             viol("set-top-and-field", "set_params(process_noise=..., max_dt_sec=...) in one call lost one of them")
-        # unknown names are refused
-        for bad in ("max_dt", "innovation_filter", "process_noises", "Config", "sensor_noise", "configs"):
+        # unknown names are refused - on a fresh estimator and on one that has already been used
+        used = float_adapter(p, {})
+        used.transform(_np.array([[0.25] * width(p), [0.5] * width(p)]))
+        attrs = sorted(a_ for a_ in vars(used) if a_ not in TOP)
+        for bad in attrs + ["max_dt"]:
+            try:
+                used.set_params(**{bad: 1.0})
+                ok = False
+            except ModelConstructionError:
+                ok = True
+            part.record(Q("unsat" if ok else "sat", None, 0.0, ""), f"{key_base}: unknown parameter name '{bad}' refused after the estimator has been used (transform)")
+            if not ok:
+                viol("unknown-name-after-use", f"set_params accepts the unknown parameter name '{bad}' once transform() has run")
+        for bad in ("max_dt", "innovation_filter", "process_noises", "Config", "sensor_noise", "configs", "model_"):
             ad3 = sym_adapter(p, env, pn, sn, k=None)
             try:
                 ad3.set_params(**{bad: 1.0})
